@@ -2,6 +2,7 @@ import TakVerif.Impl.Minimax
 import TakVerif.Generated.FuncsSearch
 import TakVerif.Proofs.GenMove
 import TakVerif.Props.C02_gen
+import TakVerif.Props.C05_gen
 
 /-! Tie #1 for the SEARCH side of C05 (also used by C04 and C16): the small helpers that `pvSearch` / `zwSearch` call are
 regenerated from `ai/minimax.go` on every run (`Generated/FuncsSearch.lean`, translator round 5, `gen/search.go`) and the
@@ -187,5 +188,114 @@ example : Gen.ttGet #[default, default, { hash := 5#64, value := 1, m := default
 example : Gen.ttPut 0 #[default, default, { hash := 5#64, value := 1, m := default, bound := 1#8, depth := 2 }] false 8#64 =
     some (some 2, #[{ hash := 5#64, value := 1, m := default, bound := 1#8, depth := 2 }, default, { hash := 5#64, value := 1, m := default, bound := 1#8, depth := 2 }]) := by
   decide
+
+end C05
+
+namespace C05
+open Tak Search
+
+/-! ### `nullMoveOK` -/
+
+/-- the regenerated `nullMoveOK` read back as the model's result (`none` = `ai.stack[ply-1]` out of range) -/
+def decNull : Option Bool → Except Err Bool
+  | none => .error (.panic "stack[ply-1].m")
+  | some b => .ok b
+
+/-- **`nullMoveOK`** on the Tak instance of the search model: for every option set, ply, depth, position and engine state whose
+frame array has the 15 entries of `ai.stack` (move types are bytes), the model's guard of the null-move search is the
+regenerated `(*MinimaxAI).nullMoveOK` applied to the frames' moves and the position's fields. -/
+theorem nullMoveOK_is_source (basis : Array W) (eval : Pos → Int) (cfg : SOpts) (ply : Nat) (depth : Int) (p : Pos) (s : Eng Move)
+    (hs : s.stackM.size = 15) (ht : ∀ i (h : i < s.stackM.size), s.stackM[i].type < 256) :
+    Search.nullMoveOK (takGame basis eval) cfg ply depth p s =
+      decNull (Gen.nullMoveOK cfg.noNullMove (s.stackM.map GenMove.genMove) (ply : Int) depth p.black (Int.ofNat p.blackStones.toNat)
+        p.stacks p.white (Int.ofNat p.whiteStones.toNat)) := by
+  unfold Search.nullMoveOK Gen.nullMoveOK
+  by_cases hn : cfg.noNullMove = true
+  · simp only [hn, if_true]; rfl
+  · have hn' : cfg.noNullMove = false := by simpa using hn
+    simp only [hn', Bool.false_eq_true, if_false]
+    by_cases h0 : ply = 0
+    · subst h0; simp [decNull, pure, Except.pure]
+    · by_cases hd : depth < 3
+      · have e : ((ply : Int) == 0 || decide (depth < 3)) = true := by simp [hd]
+        have e' : (ply == 0 || decide (depth < 3)) = true := by simp [hd]
+        simp only [e, e', if_true]; rfl
+      · have e : (((ply : Int) == 0) || decide (depth < 3)) = false := by
+          simp [hd]; omega
+        have e' : (ply == 0 || decide (depth < 3)) = false := by simp [hd, h0]
+        simp only [e, e', Bool.false_eq_true, if_false]
+        by_cases hp : ply - 1 < 15
+        · have hi : ply - 1 < s.stackM.size := by omega
+          have g : (decide ((0 : Int) ≤ (ply : Int) - 1) && decide ((ply : Int) - 1 < 15)) = true := by
+            simp; omega
+          have tn : ((ply : Int) - 1).toNat = ply - 1 := by omega
+          simp only [g, Bool.not_true, Bool.false_eq_true, if_false, tn, getA, Array.getElem?_eq_getElem hi, bind, Except.bind]
+          have gm : (s.stackM.map GenMove.genMove).getD (ply - 1) (default : Gen.Move) = GenMove.genMove s.stackM[ply - 1] := by
+            simp [Array.getD_eq_getD_getElem?, hi]
+          rw [gm]
+          have hty := ht (ply - 1) hi
+          have ep : ((GenMove.genMove s.stackM[ply - 1]).Type_ == 1#8) = (takGame basis eval).isPass s.stackM[ply - 1] := by
+            simp only [takGame, GenMove.genMove, Facts.mtPass]
+            exact ofNat8_beq _ 1 hty (by omega)
+          rw [ep]
+          by_cases hpass : (takGame basis eval).isPass s.stackM[ply - 1] = true
+          · simp only [hpass, if_true]; rfl
+          · have hpass' : (takGame basis eval).isPass s.stackM[ply - 1] = false := by simpa using hpass
+            simp only [hpass', Bool.false_eq_true, if_false]
+            simp only [takGame]
+            have pc := C02.popcount_is_source (p.white ||| p.black)
+            rw [← pc]
+            by_cases r1 : p.whiteStones.toNat < 3
+            · have r1i : ((p.whiteStones.toNat : Nat) : Int) < 3 := by omega
+              simp [r1, r1i, decNull, pure, Except.pure]
+            · have r1i : ¬ ((p.whiteStones.toNat : Nat) : Int) < 3 := by omega
+              by_cases r2 : p.blackStones.toNat < 3
+              · have r2i : ((p.blackStones.toNat : Nat) : Int) < 3 := by omega
+                simp [r1, r2, r2i, decNull, pure, Except.pure]
+              · have r2i : ¬ ((p.blackStones.toNat : Nat) : Int) < 3 := by omega
+                by_cases r3 : popcount (p.white ||| p.black) + 3 ≥ p.stacks.size
+                · have r3' : ((p.stacks.size : Nat) : Int) ≤ (popcount (p.white ||| p.black) : Int) + 3 := by omega
+                  simp [r1, r2, r1i, r2i, r3, r3', decNull, pure, Except.pure]
+                · have r3' : ¬ ((p.stacks.size : Nat) : Int) ≤ (popcount (p.white ||| p.black) : Int) + 3 := by omega
+                  simp [r1, r2, r1i, r2i, r3, r3', decNull, pure, Except.pure]
+        · have hi : ¬ (ply - 1 < s.stackM.size) := by omega
+          have g : (decide ((0 : Int) ≤ (ply : Int) - 1) && decide ((ply : Int) - 1 < 15)) = false := by
+            simp; omega
+          have gn : s.stackM[ply - 1]? = none := by simp; omega
+          simp only [g, Bool.not_false, if_true, getA, gn, bind, Except.bind]; rfl
+
+end C05
+
+namespace C05
+open Tak Search
+
+example : Gen.nullMoveOK false (Array.replicate 15 (GenMove.genMove ⟨1, 1, 2, 0#32⟩)) 2 3 0#64 21 (Array.replicate 25 0#64) 0#64 21 = some true := by
+  decide
+
+example : Gen.nullMoveOK false (Array.replicate 15 (GenMove.genMove ⟨0, 0, 1, 0#32⟩)) 2 3 0#64 21 (Array.replicate 25 0#64) 0#64 21 = some false := by
+  decide
+
+/-! ### `recordCut` (statement only)
+
+`Gen.recordCut` is regenerated and executed against the real function by `fn.recordcut` on every run, but the equality with the
+model's `recordCut` is NOT proved yet: what is missing is the (routine) case analysis below (move types are bytes, so that
+`genMove` is injective on the keys of the response map).  The history map is an extra
+output of the regenerated definition (the model replaces `sortMoves` by the ordering oracle). -/
+
+/-- the response map of the model as the regenerated association list -/
+def genResp (r : List (Move × Move)) : List (Gen.Move × Gen.Move) := r.map fun kv => (GenMove.genMove kv.1, GenMove.genMove kv.2)
+
+def recordCut_statement : Prop :=
+  ∀ (s : Eng Move) (m : Move) (move ply : Nat) (depth : Int) (hist : List (Gen.Move × Int)),
+    s.stackM.size = 15 → (∀ i (h : i < s.stackM.size), s.stackM[i].type < 256) → (∀ kv ∈ s.response, kv.1.type < 256) →
+    match Search.recordCut s m move ply,
+      Gen.recordCut hist false (genResp s.response) false (BitVec.ofNat 64 s.st.cut0) (BitVec.ofNat 64 s.st.cut1)
+        (BitVec.ofNat 64 s.st.cutNodes) (BitVec.ofNat 64 s.st.cutSearch) (s.stackM.map GenMove.genMove) (GenMove.genMove m)
+        (move : Int) depth (ply : Int) with
+    | .ok s', some (_, r', c0, c1, cn, cs) =>
+      r' = genResp s'.response ∧ c0 = BitVec.ofNat 64 s'.st.cut0 ∧ c1 = BitVec.ofNat 64 s'.st.cut1 ∧
+        cn = BitVec.ofNat 64 s'.st.cutNodes ∧ cs = BitVec.ofNat 64 s'.st.cutSearch
+    | .error _, none => True
+    | _, _ => False
 
 end C05
